@@ -211,3 +211,90 @@ CHECKS["C10"] = dict(
                   inst("root", "VHWait", solver="cvc5", timeout_ms=600000, must_reach=["pending"])]),
     assumptions=["completion schedules: already complete, or complete after 0..2 polls, with nil or an error"],
 )
+
+# ---------------------------------------------------------------- markup: C13, C14, C15
+def _mk(h, solver="z3", workers=8, **params):
+    mr = params.pop("must_reach", [])
+    return inst("markup", h, params, workers=workers, must_reach=mr, solver=solver)
+
+CHECKS["C15"] = dict(
+    level="model_checking",
+    claim="The real ParseMarkup (line_parser.go, parse_result.go, processors.go; strings.Reader and utf8 from their own SSA or exact models) is "
+          "executed on a buffer of N symbolic bytes from a fresh parser, along every feasible path: no panic path, no exhausted instruction "
+          "budget (termination within the bound), and for every result every attribute has Position >= 0, Length >= 0, Position+Length <= number "
+          "of characters of Text and TextForAttribute does not panic. Two families: arbitrary ASCII bytes, and fully arbitrary bytes "
+          "(multi-byte and invalid UTF-8).",
+    note="Bounds: N as listed in evidence.bounds; longer strings are outside the claim. unicode.IsSpace/IsDigit/IsLetter are exact (tables "
+         "compiled into SMT); regexp through the engine's matcher for the two pattern shapes ysgo uses.",
+    instances=dict(
+        quick=[_mk("VHMarkupTotal", N=n, ASCII=1, must_reach=["parsed", "error"]) for n in (1, 2, 3, 4, 5)] +
+              [_mk("VHMarkupTotal", N=n, ASCII=0, must_reach=["parsed"]) for n in (1, 2, 3)],
+        thorough=[_mk("VHMarkupTotal", N=n, ASCII=1, workers=16, must_reach=["parsed", "error"]) for n in (1, 2, 3, 4, 5, 6, 7)] +
+                 [_mk("VHMarkupTotal", N=n, ASCII=0, workers=16, must_reach=["parsed"]) for n in (1, 2, 3, 4)]),
+    assumptions=["fresh LineParser value (reuse is C14)"],
+)
+CHECKS["C14"] = dict(
+    level="model_checking",
+    claim="Relational: a LineParser in an arbitrary state (symbolic sourcePosition and position, arbitrary input, reader nil or mid-string - an "
+          "abstraction of every history incl. failed parses) and a fresh one parse the same line of N symbolic bytes; error-ness, text and every "
+          "attribute field (Position, Length, SourcePosition, name, typed properties) are equal. Runner side: the same line shown after a "
+          "different (symbolic) previous line through DialogueRunner.Next equals what a fresh parser returns.",
+    note="The oracle is the fresh parser itself, so no reference parser is trusted. Bounds on N in evidence.bounds.",
+    instances=dict(
+        quick=[_mk("VHMarkupPure", N=n, ASCII=1, must_reach=["parsed", "error"]) for n in (2, 3, 4)] +
+              [_mk("VHMarkupPure", N=5, ASCII=1, workers=12, must_reach=["parsed", "with-attributes"])] +
+              [inst("root", "VHRunnerMarkupPure", {"N1": 2, "N2": 3}, workers=8, must_reach=["parsed"])],
+        thorough=[_mk("VHMarkupPure", N=n, ASCII=1, workers=16, must_reach=["parsed", "error"]) for n in (2, 3, 4, 5, 6)] +
+                 [_mk("VHMarkupPure", N=n, ASCII=0, workers=16, must_reach=["parsed"]) for n in (2, 3, 4)] +
+                 [inst("root", "VHRunnerMarkupPure", {"N1": 3, "N2": 5}, workers=16, must_reach=["parsed", "with-attributes"])]),
+    assumptions=[],
+)
+CHECKS["C13"] = dict(
+    level="model_checking",
+    claim="Generate-and-compare on the real ParseMarkup: lines are assembled from templates of ITEMS items (text chunks of 1..2 characters incl. "
+          "two-byte characters and spaces, escaped brackets, open / close-by-name / close-all / self-closing markers over names a, b, c with up "
+          "to PROPS properties of every value type incl. shorthand and inner whitespace), template shape chosen by forking, contents symbolic; "
+          "the expected plain text and, per marker, name, typed properties, position and length in characters are computed while assembling and "
+          "compared (as a multiset) with the result, and TextForAttribute with the enclosed text. Separate harnesses: the implicit `Name: ` "
+          "prefix, replacement markers (select, plural, ordinal, nomarkup; self-closing and closed by name) and the self-closing whitespace rule.",
+    note="The final trim of the text and the whitespace swallowed after a self-closing marker are not second-guessed: the generator keeps edge "
+         "whitespace out of the plain text and places self-closing markers after non-space characters (the swallow rule has its own harness "
+         "mirroring the repository's tests). Decimal values: strconv's exact path float64(mantissa)/10^k.",
+    instances=dict(
+        quick=[_mk("VHMarkupTemplate", ITEMS=2, PROPS=0, must_reach=["parsed", "attribute"]),
+               _mk("VHMarkupTemplate", ITEMS=3, PROPS=0, SHORTHAND=0, workers=16, must_reach=["parsed", "attribute", "nonempty-attribute"]),
+               _mk("VHMarkupTemplate", ITEMS=4, PROPS=0, SHORTHAND=0, workers=16, must_reach=["parsed", "attribute", "nonempty-attribute"]),
+               _mk("VHCharacterPrefix", must_reach=["character"]),
+               _mk("VHReplacement", must_reach=["select", "plural", "ordinal", "nomarkup"]),
+               _mk("VHSelfClosingTrim", must_reach=["selfclosing"])],
+        thorough=[_mk("VHMarkupTemplate", ITEMS=2, PROPS=0, workers=16, must_reach=["parsed", "attribute"]),
+                  _mk("VHMarkupTemplate", ITEMS=2, PROPS=1, workers=16, solver="cvc5", must_reach=["parsed", "attribute"]),
+                  _mk("VHMarkupTemplate", ITEMS=4, PROPS=0, SHORTHAND=0, workers=16, must_reach=["parsed", "attribute", "nonempty-attribute"]),
+                  _mk("VHMarkupTemplate", ITEMS=5, PROPS=0, SHORTHAND=0, workers=16, must_reach=["parsed", "attribute", "nonempty-attribute"]),
+                  _mk("VHCharacterPrefix", must_reach=["character"]),
+                  _mk("VHReplacement", must_reach=["select", "plural", "ordinal", "nomarkup"]),
+                  _mk("VHSelfClosingTrim", must_reach=["selfclosing"])]),
+    assumptions=["plain text starts and ends with a non-space character", "characters: printable ASCII except [ ] \\\\ :, U+00E1..U+00FF, space"],
+)
+
+# ---------------------------------------------------------------- C17
+CHECKS["C17"] = dict(
+    level="model_checking",
+    claim="The real CommandStatement.rearrange/split/valueFromCommandText are executed on ITEMS elements, each a COMMAND_TEXT chunk of 1..N symbolic "
+          "bytes from the token's alphabet (no > { CR LF) or an expression element, and compared with an independent byte loop: words are the "
+          "maximal runs of non-whitespace (space, tab) of the concatenated adjacent chunks, true/false are booleans, -?digits(.digits)? are "
+          "numbers equal to the literal, expressions keep their position, every other word is a string verbatim. Dispatch (handler reached once "
+          "with the arguments in order, <<stop>> never dispatched, unregistered name an error) is decided by the C01/C10 step harnesses.",
+    note="Which characters reach COMMAND_TEXT and whether a keyword-prefixed name (iffy, settings) is an ordinary command is decided by the ANTLR "
+         "lexer: outside the claim. The numeric value of a literal is strconv's (exact for integer and d.dd literals).",
+    instances=dict(
+        quick=[inst("internal/tree", "VHCommandArgs", {"ITEMS": 1, "N": 4}, workers=8, must_reach=["rearranged", "boolean", "number", "string"]),
+               inst("internal/tree", "VHCommandArgs", {"ITEMS": 2, "N": 3}, workers=8, must_reach=["rearranged", "expression", "number", "string"]),
+               inst("internal/tree", "VHCommandArgs", {"ITEMS": 3, "N": 2}, workers=8, must_reach=["rearranged", "expression", "string"]),
+               _world("VHNextStep", DEPTH=1, QLEN=2, BUDGET=1, VISCFG=1, HEAD=6, must_reach=["handler-args", "fail", "end-by-stop"])],
+        thorough=[inst("internal/tree", "VHCommandArgs", {"ITEMS": 1, "N": 5}, workers=16, must_reach=["rearranged", "boolean", "number", "string"]),
+                  inst("internal/tree", "VHCommandArgs", {"ITEMS": 2, "N": 4}, workers=16, must_reach=["rearranged", "expression", "number", "string"]),
+                  inst("internal/tree", "VHCommandArgs", {"ITEMS": 3, "N": 3}, workers=16, must_reach=["rearranged", "expression", "string"]),
+                  _world("VHNextStep", DEPTH=2, QLEN=2, BUDGET=1, VISCFG=1, HEAD=6, must_reach=["handler-args", "fail", "end-by-stop"])]),
+    assumptions=["chunk bytes: anything but > { CR LF (the COMMAND_TEXT alphabet); adjacent text chunks do not occur (lexer contract)"],
+)
